@@ -1,0 +1,178 @@
+//go:build verif
+
+package sugardb
+
+import (
+	"bytes"
+	"errors"
+	"fmt"
+	"io"
+	"sync/atomic"
+	"time"
+
+	"github.com/echovault/sugardb/internal"
+	hraft "github.com/hashicorp/raft"
+
+	"github.com/echovault/sugardb/internal/raft"
+)
+
+// Socket-free cluster nodes for the verification harness.
+//
+// With VerifClusterNoSockets(true) a server configured for cluster mode is built exactly as usual
+// (raft.NewRaft / memberlist.NewMemberList receive the closures of sugardb.go) but RaftInit and
+// MemberListInit, which open the sockets and start hashicorp/raft and memberlist, are skipped.
+// The state machine is then built from the same options (raft.VerifNewFSM) and driven directly;
+// "who is the leader" and "what raft.Apply does" are supplied by the harness through raft.VerifStub.
+
+var verifNoSockets atomic.Bool
+
+// VerifClusterNoSockets switches the socket-free construction on or off for servers built afterwards.
+func VerifClusterNoSockets(on bool) { verifNoSockets.Store(on) }
+
+func (server *SugarDB) verifClusterNoSockets() bool {
+	return verifNoSockets.Load() && server.isInCluster()
+}
+
+// VerifRaftNode is one node's state machine together with the stand-in for its raft instance.
+type VerifRaftNode struct {
+	server *SugarDB
+	fsm    hraft.FSM
+	leader atomic.Bool
+	inFSM  atomic.Int32
+	index  uint64
+	// Reentered counts calls of raft.Apply made while this node's FSM.Apply was running
+	// (hashicorp/raft runs FSM.Apply on the goroutine that would have to serve that call).
+	Reentered int
+	// LockHeld counts calls of raft.Apply made while the caller held the store lock
+	// (the FSM's DeleteKey closure needs that lock to apply the entry).
+	LockHeld int
+	// OnApply is what a raft.Apply issued outside FSM.Apply does: the harness appends the entry to its
+	// log, applies it to the nodes and returns the leader's response.
+	OnApply func(data []byte) (interface{}, error)
+}
+
+type verifFuture struct {
+	err  error
+	resp interface{}
+	idx  uint64
+}
+
+func (f verifFuture) Error() error          { return f.err }
+func (f verifFuture) Response() interface{} { return f.resp }
+func (f verifFuture) Index() uint64         { return f.idx }
+
+// VerifRaftNode builds the node's state machine and installs the raft stand-in.
+func (server *SugarDB) VerifRaftNode(leader bool, clusterSize int) (*VerifRaftNode, error) {
+	if server.raft == nil {
+		return nil, errors.New("not configured for cluster mode")
+	}
+	n := &VerifRaftNode{server: server}
+	n.leader.Store(leader)
+	n.fsm = server.raft.VerifNewFSM()
+	server.raft.VerifSetStub(&raft.VerifStub{
+		Leader: func() bool { return n.leader.Load() },
+		Apply: func(cmd []byte, timeout time.Duration) hraft.ApplyFuture {
+			if n.inFSM.Load() > 0 {
+				n.Reentered++
+				return verifFuture{err: errors.New("verif: raft.Apply called from inside FSM.Apply (hashicorp/raft deadlocks here)")}
+			}
+			if !server.storeLock.TryLock() {
+				n.LockHeld++
+				return verifFuture{err: errors.New("verif: raft.Apply called while the store lock is held (FSM.Apply cannot take it)")}
+			}
+			server.storeLock.Unlock()
+			if n.OnApply == nil {
+				return verifFuture{err: errors.New("verif: no log attached")}
+			}
+			resp, err := n.OnApply(cmd)
+			n.index++
+			return verifFuture{err: err, resp: resp, idx: n.index}
+		},
+	})
+	server.memberList.VerifInitQueue(clusterSize)
+	return n, nil
+}
+
+// SetLeader changes what IsRaftLeader answers on this node.
+func (n *VerifRaftNode) SetLeader(leader bool) { n.leader.Store(leader) }
+
+// FSMApply feeds one committed log entry to the state machine, as hashicorp/raft's runFSM does.
+// The result is the ApplyResponse (response bytes / error text), a recovered panic, or "nil" for an
+// entry the state machine ignored.
+func (n *VerifRaftNode) FSMApply(data []byte) (raw interface{}, resp []byte, errText string, panicked string) {
+	defer func() {
+		if r := recover(); r != nil {
+			panicked = fmt.Sprintf("%v", r)
+		}
+	}()
+	n.inFSM.Add(1)
+	defer n.inFSM.Add(-1)
+	n.index++
+	raw = n.fsm.Apply(&hraft.Log{Type: hraft.LogCommand, Index: n.index, Term: 1, Data: data})
+	if ar, ok := raw.(internal.ApplyResponse); ok {
+		resp = ar.Response
+		if ar.Error != nil {
+			errText = ar.Error.Error()
+			if errText == "" {
+				errText = "error"
+			}
+		}
+	}
+	return
+}
+
+type verifSink struct {
+	bytes.Buffer
+	id        string
+	cancelled bool
+}
+
+func (s *verifSink) ID() string    { return s.id }
+func (s *verifSink) Cancel() error { s.cancelled = true; return nil }
+func (s *verifSink) Close() error  { return nil }
+
+// FSMSnapshot takes a raft snapshot of the state machine and persists it into memory. The sink's id
+// has hashicorp/raft's form "term-index-milliseconds".
+func (n *VerifRaftNode) FSMSnapshot(msec int64) (data []byte, errText string, panicked string) {
+	defer func() {
+		if r := recover(); r != nil {
+			panicked = fmt.Sprintf("%v", r)
+		}
+	}()
+	snap, err := n.fsm.Snapshot()
+	if err != nil {
+		return nil, err.Error(), ""
+	}
+	sink := &verifSink{id: fmt.Sprintf("1-%d-%d", n.index, msec)}
+	err = snap.Persist(sink)
+	snap.Release()
+	if err != nil {
+		return nil, err.Error(), ""
+	}
+	if sink.cancelled {
+		return nil, "cancelled", ""
+	}
+	return sink.Bytes(), "", ""
+}
+
+// FSMRestore hands a snapshot to the state machine's Restore.
+func (n *VerifRaftNode) FSMRestore(data []byte) (errText string, panicked string) {
+	defer func() {
+		if r := recover(); r != nil {
+			panicked = fmt.Sprintf("%v", r)
+		}
+	}()
+	if err := n.fsm.Restore(io.NopCloser(bytes.NewReader(data))); err != nil {
+		return err.Error(), ""
+	}
+	return "", ""
+}
+
+// VerifMemberDrain returns the gossip messages this node has queued (forwarded mutations / deletions).
+func (server *SugarDB) VerifMemberDrain() [][]byte { return server.memberList.VerifDrain() }
+
+// VerifMemberNotify delivers one gossip message to this node.
+func (server *SugarDB) VerifMemberNotify(msg []byte) { server.memberList.VerifNotify(msg) }
+
+// VerifMutationInProgress reports the flag getState waits on.
+func (server *SugarDB) VerifMutationInProgress() bool { return server.stateMutationInProgress.Load() }
